@@ -2,15 +2,16 @@
 import itertools
 import random
 from vf import Case
-from gen import constants
+from gen import constants, cloops
 
 ID = "C17"
 DRIVER = "drv_streams"
 HARNESS = "h_streams"
 QUICK_LEVEL = "thorough"      # the larger case set costs only seconds
 THOROUGH_SEEDS = 3
-GEN = [constants.gen]
+GEN = [constants.gen, cloops.endp_gen]
 TIE = ['Ufw.Tie.Misc']
+tie_modules = cloops.endp_tie_modules     # obligations over the functions of endpoints/core.c the translator delivered
 SYMS = ["k1", "k2", "k9", "z", "i", "a", "h:eio", "h:enomem"]
 RULE = ("every driver script up to a length bound (quick 3, thorough 5; longer ones sampled) over {1, 2, many, 0, EINTR, EAGAIN, hard EIO, "
         "hard ENOMEM} as source script and as sink script, for octet- and chunk-style drivers, through source_get_chunk / _atmost and "
@@ -20,12 +21,20 @@ RULE = ("every driver script up to a length bound (quick 3, thorough 5; longer o
         "Non-trivial = at least one octet moved; distinct = distinct operation text.")
 EXHAUSTIVE = {"quick": True, "thorough": True}
 ASSUMPTIONS = [
+    "tie A: source_get_octet, sink_put_octet, source_adapt, sink_adapt, once_source_get_chunk, once_sink_put_chunk, source_get_chunk, sink_put_chunk and the "
+    "two atmost variants are translated from clang's typed AST on every run (tools/gen/cloops.py -> Gen/EndpFns.lean: `continue`, calls through the driver "
+    "callbacks as calls of the prelude's scripted drivers, a Source / Sink as kind + driver data, `return c ? f() : g()` with only the chosen call run); proved "
+    "over the translation: gen_sink_adapt and gen_source_adapt - whenever the model's loop ends, the C loop run against the same driver script ends (with any "
+    "fuel beyond the model's) in the same return value, the same driver state and, for the source, the octets moved at the front of the caller's block with the "
+    "rest untouched: every octet offered / fetched once and in order, retried after EINTR / EAGAIN (Ufw.Tie.EndpFns.*); the chunk loops on top of them are "
+    "translated (evidence) and compared by running",
     "lean/Ufw/Model/Endpoints.lean is a hand transcription of src/endpoints/core.c for endpoints without the getbuffer extension (no endpoint of the library provides it); "
     "tied to the code by the correspondence run with scripted drivers owned by the harness",
     "octet-style drivers return 1 for a moved octet (the convention of every driver in the library)",
     "drivers answering 0 (nothing for the moment) are inside the model and the theorems since fix 516baad (sts_cbc asks again / hands on nothing)",
 ]
-TRUSTED = ["correspondence harness harness/h_streams.c + tools/lib/vf.py (return value incl. exact errno, octets delivered to the caller / received by the sink; "
+TRUSTED = ["translator tools/gen/cloops.py + prelude lean/Ufw/Tie/CPre.lean (scripted drivers: move up to k octets or answer a code; -ENODATA from an exhausted source)",
+           "correspondence harness harness/h_streams.c + tools/lib/vf.py (return value incl. exact errno, octets delivered to the caller / received by the sink; "
            "spec view: delivered = next N of the stream, sink content a prefix of the stream, auxiliary buffer untouched outside its region; "
            "octets taken from the source driver are compared with the model only)"]
 DESIGN_REF = "DESIGN.md section 0.2 (as built) and section 8, C17"
